@@ -57,7 +57,7 @@ class SimpleMatcher(BaseMatcher):
               to be a proper probability (thus values between 0.0 and 1.0).
         """
         logprob = 0
-        if prev_m.edge_m.label == edge_m.label:
+        if prev_m.edge_m.key == edge_m.key:
             # Staying in same state
             if self.avoid_goingback and edge_m.key == prev_m.edge_m.key and edge_m.ti < prev_m.edge_m.ti:
                 # Going back on edge
@@ -69,7 +69,7 @@ class SimpleMatcher(BaseMatcher):
                 # Goin back on state
                 going_back = False
                 for m in prev_m.prev:
-                    if edge_m.label == m.edge_m.label:
+                    if edge_m.key == m.edge_m.key:
                         going_back = True
                         break
                 if going_back:
